@@ -318,8 +318,59 @@ def correspond(ctx):
                                 ctx.case(("model", n, vec, chunk, pool_n, unit, which, par, dt), n >= 1, case if n == 3 else None, kind="Model." + which + ":" + dt)
     ctx.diff_model(lines, impls, cases)
     reused_buffers(ctx)
+    probe_layer(ctx)
     if not ctx.quick:
         real_pools(ctx)
+
+
+def probe_layer(ctx):
+    """the REAL probe check_vectorised_function decides whether a function is treated as vectorised; whatever it decides,
+    the batch result must be the pointwise values, shape (n,) (seeded change C10-eB: the probe reshaped the batch output, so
+    a function returning (1, n) counted as vectorised and its (1, n) result was handed back / broke concatenation)"""
+    from nessai.utils.multiprocessing import batch_evaluate_function, check_vectorised_function
+
+    def f_ok(b):
+        return np.atleast_1d(b) * 3.0 - 7.0 + EPS
+
+    def f_row(b):                       # parameters-in-rows style: (1, n) for a batch, (1, 1) for one point
+        return (np.atleast_1d(b) * 3.0 - 7.0 + EPS).reshape(1, -1)
+
+    def f_col(b):                       # (n, 1)
+        return (np.atleast_1d(b) * 3.0 - 7.0 + EPS).reshape(-1, 1)
+
+    def f_scalar_only(v):
+        if np.ndim(v) != 0:
+            raise TypeError("scalar only")
+        return float(v) * 3.0 - 7.0 + EPS
+
+    def f_reduce(b):                    # reduces a batch to one number (NOT vectorised): pointwise it is the value
+        b = np.atleast_1d(b)
+        return float(np.sum(b * 3.0 - 7.0 + EPS)) if b.size > 1 else float(b[0] * 3.0 - 7.0 + EPS)
+
+    for name, f in (("(n,)", f_ok), ("(1,n)", f_row), ("(n,1)", f_col), ("scalar-only", f_scalar_only), ("reducing", f_reduce)):
+        for n in (1, 2, 5):
+            for chunk in (None, 2):
+                for pool_n in (None, 2):
+                    x = np.arange(n, dtype=float)
+                    case = dict(layer="probe", function_output=name, n=n, chunk=chunk, pool=pool_n)
+                    try:
+                        vec = bool(check_vectorised_function(f, np.arange(3, dtype=float) + 0.5))
+                    except Exception as e:  # noqa
+                        ctx.oracle_fail("check_vectorised_function:raised", f"{_exc(e)}: {e}", case)
+                        continue
+                    pool = FakePool(pool_n) if pool_n else None
+                    try:
+                        out = batch_evaluate_function(f, x, vec, chunksize=chunk, pool=pool, n_pool=pool_n)
+                    except Exception as e:  # noqa
+                        ctx.oracle_fail("batch_evaluate_function", f"probe said vectorised={vec} for a function returning {name}; the batch "
+                                        f"call then raised {_exc(e)}: {e}", case)
+                        continue
+                    want = np.array([point_value(i) for i in range(n)])
+                    out = np.asarray(out, dtype=float)
+                    if out.shape != want.shape or not np.array_equal(out, want):
+                        ctx.oracle_fail("batch_evaluate_function", f"probe said vectorised={vec} for a function returning {name}: batch result "
+                                        f"shape {out.shape} {out.tolist()} differs from the pointwise values {want.tolist()}", case)
+                    ctx.case(("probe", name, n, chunk, pool_n), True, case if n == 2 and chunk is None else None, kind="probe:" + name)
 
 
 def reused_buffers(ctx):
